@@ -270,6 +270,18 @@ func genC13(e *emitter, tier string, seed uint64) {
 		e.note("asm.eligible-shape")
 		e.run("C13.asm", hex.EncodeToString(s))
 	}
+	// ASM of non-data scripts that merely *look* like data at the part level: a first push whose payload starts with
+	// OP_RETURN's byte, or OP_0 / a push starting 00 followed by such a push (the data test is on the script's bytes)
+	for k := 0; k < 24; k++ {
+		pay := append([]byte{0x6a}, r.bytes(1+r.n(6))...)
+		tailOps := genWellFormed(r, 1+r.n(3), false, true)
+		first := append([]byte{byte(len(pay))}, pay...)
+		e.run("C13.asm", hex.EncodeToString(append(append([]byte{}, first...), tailOps...)))
+		e.run("C13.asm", hex.EncodeToString(append(append([]byte{0x00}, first...), tailOps...)))
+		z := append([]byte{0x00}, r.bytes(1+r.n(4))...)
+		e.run("C13.asm", hex.EncodeToString(append(append(append([]byte{byte(len(z))}, z...), first...), tailOps...)))
+		e.note("asm.looks-like-data")
+	}
 	for b := 0; b < 256; b++ { // every single opcode, alone and between two others
 		e.run("C13.asm", hex.EncodeToString([]byte{byte(b)}))
 		e.run("C13.asm", hex.EncodeToString([]byte{0x76, byte(b), 0x87}))
